@@ -173,6 +173,36 @@ func runC17(c *Ctx) {
 			}
 		}
 	}
+	// … and Equal really compares the two signers: the network id of the receiver with that of the argument
+	{
+		eqf := w.Fn("core/types", "YouSigner", "Equal")
+		c.sawFunc(fname(eqf))
+		c.sites++
+		fromRecv, fromArg := false, false
+		for _, ci := range callInstrs(eqf) {
+			o := calleeObj(ci)
+			if o == nil || o.Name() != "Cmp" {
+				continue
+			}
+			for _, v := range []ssa.Value{callRecv(ci), callArgs(ci)[0]} {
+				f, base := loadedField(stripConv(v))
+				if f == nil || f.Name() != "networkId" {
+					continue
+				}
+				// the receiver is a value receiver (possibly spilled to a local); the argument arrives by type assertion
+				isArg := derivesFrom(base, func(x ssa.Value) bool { _, ok := x.(*ssa.TypeAssert); return ok })
+				isRecv := !isArg && derivesFrom(base, func(x ssa.Value) bool { return x == ssa.Value(eqf.Params[0]) })
+				if isArg {
+					fromArg = true
+				}
+				if isRecv {
+					fromRecv = true
+				}
+			}
+		}
+		okEq := fromRecv && fromArg
+		c.Check(fname(eqf)+"#compares-receiver-with-argument", eqf.Pos(), okEq, ifelse(okEq, "networkId of the receiver is compared with networkId of the argument", fmt.Sprintf("Equal does not compare the receiver's network id with the argument's (receiver side=%v, argument side=%v): any two signers are equal, and a sender cached under one network id is handed out under every other — replay protection is gone for a transaction object whose sender was derived once", fromRecv, fromArg)))
+	}
 	c.Check(fname(snd)+"#cache-discipline", snd.Pos(), cacheOK && eq != nil && sndCall != nil, ifelse(cacheOK, "cache hit only under signer.Equal, fill only after signer.Sender == nil", whyCache))
 
 	// ------------------------------------------------------------ T3
